@@ -76,6 +76,13 @@ pub fn mutate_check(bytes: &[u8], script: &[BOp], rep: &mut CaseReport) -> Resul
     let mut io = Io::from_bytes(bytes.to_vec());
     // damaged tables can send writes far away; keep the "disk" small
     io.cap = bytes.len() + (4 << 20);
+    // a quarter of the inputs live on a fixed-size backend (as `Cursor<&mut [u8]>` is): room
+    // for a few hundred more bytes, then write() returns Ok(0) - never an endless loop
+    let fixed = fnv64(bytes) % 4 == 0;
+    if fixed {
+        io.cap = crate::backend::FIXED_BIT | (bytes.len() + (fnv64(bytes) >> 8) as usize % 3000);
+        rep.classes.push("fixed_size_backend".into());
+    }
     let opened = guard("open", || open_options(None, false).open_with(io))?;
     let mut c = match opened {
         Ok(c) => c,
@@ -142,7 +149,7 @@ pub fn def() -> PropDef {
     PropDef {
         id: "C11",
         level: "exploration",
-        rule: "input = valid image (synthesized or library-written, V3/V4) x 1-3 corruptions restricted to fields that permissive open does not validate (start sector and size of streams and of the root, FAT cells inside mini-stream/data chains and free cells, MiniFAT cells, tail->head cycles of data, mini-stream and mini chains), kept only if permissive open accepts (rate in classes); then a mutation history of 1-8 ops chosen from what the library itself lists: handle scripts with write/write_all/set_len(+-)/seek/read/flush on listed streams, create stream/storage under listed storages, remove stream/storage/recursive, setters, flush, drop. Oracle: every call returns Ok or Err, no panic (index, overflow, assertion, unwrap), worker CPU budget 20 CPU-s per case confirmed alone under RLIMIT_CPU. Non-trivial = accepted input for which the independent checker reports >=1 violated rule and >=1 mutating call reached the library; distinct = distinct case JSON. Thorough tier adds a libFuzzer campaign on the same oracle.",
+        rule: "input = valid image (synthesized or library-written, V3/V4) x 1-3 corruptions restricted to fields that permissive open does not validate (start sector and size of streams and of the root, FAT cells inside mini-stream/data chains and free cells, MiniFAT cells, tail->head cycles of data, mini-stream and mini chains), kept only if permissive open accepts (rate in classes); then a mutation history of 1-8 ops chosen from what the library itself lists: handle scripts with write/write_all/set_len(+-)/seek/read/flush on listed streams, create stream/storage under listed storages, remove stream/storage/recursive, setters, flush, drop. A quarter of the inputs run on a fixed-size backend (write returns Ok(0) at the end of the space). Oracle: every call returns Ok or Err, no panic (index, overflow, assertion, unwrap), worker CPU budget 20 CPU-s per case confirmed alone under RLIMIT_CPU. Non-trivial = accepted input for which the independent checker reports >=1 violated rule and >=1 mutating call reached the library; distinct = distinct case JSON. Thorough tier adds a libFuzzer campaign on the same oracle.",
         assumptions: &["checked build: debug assertions and overflow checks on (profile 'checked'); thorough also runs the release-semantics build"],
         quick_cases: 6000,
         thorough_cases: 150000,
